@@ -158,3 +158,34 @@ Example C04_symbolic_groups :
   groups2_sym = [(2,1); (3,1); (4,1); (2,2); (3,2); (2,3)]%nat.
 Proof. split; reflexivity. Qed.
 Print Assumptions C04_symbolic_groups.
+
+(* ------------------------------------------------------------------------------------------------
+   proofs/LumpingAllN_BC.v: the UNBOUNDED lumping theorem for the BLOCK-COUNTING chain as well (entry
+   i of deme d = number of blocks of size i+1): every number of demes, every sample size, Kingman,
+   Beta and Dirac with arbitrary real parameters, every real valuation of the rates, at every labelled
+   state reachable from the sample configuration and for every target state t.  Together with the
+   lineage-counting theorem above: whichever of the two single-locus state spaces the code builds
+   ([p_lc P]), its transition rates are the summed rates of the labelled structured coalescent. *)
+From PG Require Import proofs.LumpingAllN_BC.
+
+Theorem C04_lumping_single_locus_BC_unbounded :
+  forall (P : params (T:=R)) (config : list nat) (x : lstate),
+    reach (targets_of (levents1 (length config))) (linit config) x ->
+  forall t : state,
+    rate_of (transit OpsR P (pi1 false (length config) (sum_nat config) x)) t =
+    rsum_over (fun ey => if state_eqb (pi1 false (length config) (sum_nat config) (snd ey)) t
+                         then erate OpsR P (fst ey) else 0%R)
+              (levents1 (length config) x).
+Proof. exact lumping_single_locus_BC_unbounded. Qed.
+Print Assumptions C04_lumping_single_locus_BC_unbounded.
+
+Theorem C04_lumping_single_locus_unbounded :
+  forall (P : params (T:=R)) (config : list nat) (x : lstate),
+    reach (targets_of (levents1 (length config))) (linit config) x ->
+  forall t : state,
+    rate_of (transit OpsR P (pi1 (p_lc P) (length config) (sum_nat config) x)) t =
+    rsum_over (fun ey => if state_eqb (pi1 (p_lc P) (length config) (sum_nat config) (snd ey)) t
+                         then erate OpsR P (fst ey) else 0%R)
+              (levents1 (length config) x).
+Proof. exact lumping_single_locus_unbounded. Qed.
+Print Assumptions C04_lumping_single_locus_unbounded.
